@@ -14,10 +14,12 @@ import (
 	"encoding/json"
 	"errors"
 	"fmt"
+	"io"
 	"sort"
 	"strings"
 	"sync"
 	"testing"
+	"testing/iotest"
 	"time"
 
 	"github.com/notaryproject/notation-go"
@@ -46,6 +48,28 @@ type Presented struct {
 	Size      int64             `json:"size,omitempty"`
 	Blob      []byte            `json:"blob,omitempty"`
 	Required  map[string]string `json:"required,omitempty"`
+	Reader    string            `json:"reader,omitempty"` // how notation.VerifyBlob is handed the blob
+	SplitAt   int               `json:"splitAt,omitempty"`
+}
+
+// blobReader presents the blob through readers with different legal behaviours.
+func (p Presented) blobReader() io.Reader {
+	b := p.Blob
+	switch p.Reader {
+	case "multi-split": // first Read returns a prefix (e.g. exactly the blob that was signed), later Reads the rest
+		k := p.SplitAt
+		if k <= 0 || k >= len(b) {
+			k = len(b) / 2
+		}
+		return io.MultiReader(bytes.NewReader(b[:k]), bytes.NewReader(b[k:]))
+	case "one-byte":
+		return iotest.OneByteReader(bytes.NewReader(b))
+	case "data-with-eof":
+		return iotest.DataErrReader(bytes.NewReader(b))
+	case "half":
+		return iotest.HalfReader(bytes.NewReader(b))
+	}
+	return bytes.NewReader(b)
 }
 
 // Case is the replay format.
@@ -62,6 +86,10 @@ type Case struct {
 	Plugin    bool      `json:"plugin"`
 	Entry     string    `json:"entry"` // verifier.Verify verifier.VerifyBlob notation.Verify notation.VerifyBlob
 	Scheme    string    `json:"scheme"`
+	// Decoys are other signatures the repository lists BEFORE the case's envelope (notation.Verify
+	// only): valid signatures of the same signer that lack part of the required metadata or are
+	// for another artifact. Whatever verifies first is judged.
+	Decoys [][]byte `json:"decoys,omitempty"`
 }
 
 // ---- signers ----
@@ -279,16 +307,28 @@ type oneSigRepo struct {
 	desc ocispec.Descriptor
 	env  []byte
 	mt   string
+	more [][]byte // listed before env
 }
+
+func (r *oneSigRepo) all() [][]byte { return append(append([][]byte{}, r.more...), r.env) }
 
 func (r *oneSigRepo) Resolve(ctx context.Context, ref string) (ocispec.Descriptor, error) {
 	return r.desc, nil
 }
 func (r *oneSigRepo) ListSignatures(ctx context.Context, d ocispec.Descriptor, fn func([]ocispec.Descriptor) error) error {
-	return fn([]ocispec.Descriptor{{MediaType: ocispec.MediaTypeImageManifest, Digest: digest.FromBytes(r.env), Size: 1}})
+	var page []ocispec.Descriptor
+	for i, e := range r.all() {
+		page = append(page, ocispec.Descriptor{MediaType: ocispec.MediaTypeImageManifest, Digest: digest.FromBytes(e), Size: int64(i)})
+	}
+	return fn(page)
 }
 func (r *oneSigRepo) FetchSignatureBlob(ctx context.Context, d ocispec.Descriptor) ([]byte, ocispec.Descriptor, error) {
-	return r.env, ocispec.Descriptor{MediaType: r.mt, Digest: digest.FromBytes(r.env), Size: int64(len(r.env))}, nil
+	all := r.all()
+	if d.Size < 0 || int(d.Size) >= len(all) {
+		return nil, ocispec.Descriptor{}, errors.New("harness: unknown signature manifest")
+	}
+	e := all[d.Size]
+	return e, ocispec.Descriptor{MediaType: r.mt, Digest: digest.FromBytes(e), Size: int64(len(e))}, nil
 }
 func (r *oneSigRepo) PushSignature(ctx context.Context, mediaType string, blob []byte, subject ocispec.Descriptor, annotations map[string]string) (ocispec.Descriptor, ocispec.Descriptor, error) {
 	return ocispec.Descriptor{}, ocispec.Descriptor{}, errors.New("not supported")
@@ -330,16 +370,26 @@ func execute(c *Case, s *signer) (*result, error) {
 	ctx := context.Background()
 	p := c.Presented
 	res := &result{}
+	required := func() map[string]string { // the library gets its own copy: the oracle judges against the pristine map
+		if p.Required == nil {
+			return nil
+		}
+		m := map[string]string{}
+		for k, v := range p.Required {
+			m[k] = v
+		}
+		return m
+	}
 	switch c.Entry {
 	case "verifier.Verify":
 		desc := ocispec.Descriptor{MediaType: p.MediaType, Digest: digest.Digest(p.Digest), Size: p.Size}
 		res.outcome, res.err = v.Verify(ctx, desc, c.Envelope, notation.VerifierVerifyOptions{ArtifactReference: "registry.example/c01/repo@" + p.Digest,
-			SignatureMediaType: c.Format, UserMetadata: p.Required})
+			SignatureMediaType: c.Format, UserMetadata: required()})
 	case "notation.Verify":
 		desc := ocispec.Descriptor{MediaType: p.MediaType, Digest: digest.Digest(p.Digest), Size: p.Size}
 		var outs []*notation.VerificationOutcome
-		_, outs, res.err = notation.Verify(ctx, v, &oneSigRepo{desc: desc, env: c.Envelope, mt: c.Format}, notation.VerifyOptions{
-			ArtifactReference: "registry.example/c01/repo@" + p.Digest, MaxSignatureAttempts: 3, UserMetadata: p.Required})
+		_, outs, res.err = notation.Verify(ctx, v, &oneSigRepo{desc: desc, env: c.Envelope, mt: c.Format, more: c.Decoys}, notation.VerifyOptions{
+			ArtifactReference: "registry.example/c01/repo@" + p.Digest, MaxSignatureAttempts: 6, UserMetadata: required()})
 		if len(outs) > 0 {
 			res.outcome = outs[0]
 		}
@@ -350,10 +400,10 @@ func execute(c *Case, s *signer) (*result, error) {
 			}
 			return ocispec.Descriptor{MediaType: p.MediaType, Digest: alg.FromBytes(p.Blob), Size: int64(len(p.Blob))}, nil
 		}
-		res.outcome, res.err = v.VerifyBlob(ctx, gen, c.Envelope, notation.BlobVerifierVerifyOptions{SignatureMediaType: c.Format, UserMetadata: p.Required})
+		res.outcome, res.err = v.VerifyBlob(ctx, gen, c.Envelope, notation.BlobVerifierVerifyOptions{SignatureMediaType: c.Format, UserMetadata: required()})
 	case "notation.VerifyBlob":
-		_, res.outcome, res.err = notation.VerifyBlob(ctx, v, bytes.NewReader(p.Blob), c.Envelope, notation.VerifyBlobOptions{
-			BlobVerifierVerifyOptions: notation.BlobVerifierVerifyOptions{SignatureMediaType: c.Format, UserMetadata: p.Required}, ContentMediaType: p.MediaType})
+		_, res.outcome, res.err = notation.VerifyBlob(ctx, v, p.blobReader(), c.Envelope, notation.VerifyBlobOptions{
+			BlobVerifierVerifyOptions: notation.BlobVerifierVerifyOptions{SignatureMediaType: c.Format, UserMetadata: required()}, ContentMediaType: p.MediaType})
 	default:
 		return nil, fmt.Errorf("unknown entry %q", c.Entry)
 	}
@@ -372,8 +422,11 @@ type ownPayload struct {
 }
 
 // oracle is applied to every success.
-func oracle(c *Case) (string, string) {
-	ver, err := envb.IndependentVerify(c.Format, c.Envelope)
+func oracle(c *Case) (string, string) { return oracleFor(c, c.Envelope) }
+
+// oracleFor judges a success that was reported for envelope env.
+func oracleFor(c *Case, env []byte) (string, string) {
+	ver, err := envb.IndependentVerify(c.Format, env)
 	if err != nil {
 		return "C01:success-without-valid-signature:" + c.Source, fmt.Sprintf("verification succeeded but the independent verifier rejects the envelope: %v", err)
 	}
@@ -588,6 +641,34 @@ func TestC01_Bound(t *testing.T) {
 		case "bytemutated":
 			c.Envelope, c.Detail = byteMutate(rt, c.Format, e0)
 		}
+		if kind == "blob" {
+			c.Presented.Reader = rp.Pick(rt, "reader", "bytes", "bytes", "multi-split", "multi-split", "one-byte", "data-with-eof", "half")
+			c.Presented.SplitAt = len(art.blob) // a prefix Read returns exactly the blob that was signed
+		}
+		if c.Entry == "notation.Verify" && rapid.Bool().Draw(rt, "decoys") {
+			// earlier listed signatures of the same signer: each lacks part of the signed metadata, or is
+			// for the other artifact; none of them may make a verification succeed that the oracle refuses
+			var ks []string
+			for k := range ann {
+				ks = append(ks, k)
+			}
+			sort.Strings(ks)
+			for i := 0; i < rapid.IntRange(1, 3).Draw(rt, "decoyCount"); i++ {
+				sub := map[string]string{}
+				for _, k := range ks {
+					if rapid.Bool().Draw(rt, "decoyKeeps:"+k) {
+						sub[k] = ann[k]
+					}
+				}
+				target := art
+				if rapid.IntRange(0, 3).Draw(rt, "decoyOtherArtifact") == 0 {
+					target = other
+				}
+				d := *target
+				d.ann = sub
+				c.Decoys = append(c.Decoys, buildEnv(c.Format, sA, d.payload(), envb.PayloadType, c.Plugin))
+			}
+		}
 		res, herr := execute(c, sA)
 		if herr != nil {
 			rt.Fatalf("harness: %v", herr)
@@ -615,6 +696,12 @@ func TestC01_Bound(t *testing.T) {
 		if len(c.Presented.Required) > 0 {
 			cl = append(cl, "metadata-required")
 		}
+		if c.Presented.Reader != "" {
+			cl = append(cl, "reader="+c.Presented.Reader)
+		}
+		if len(c.Decoys) > 0 {
+			cl = append(cl, "listed-with-decoys")
+		}
 		for _, d := range strings.Split(c.Detail, ";") {
 			if d != "" && c.Source != "reassembled" {
 				cl = append(cl, "detail="+d)
@@ -626,7 +713,11 @@ func TestC01_Bound(t *testing.T) {
 			cc.Envelope = nil // samples stay small; the replay file keeps the bytes
 			return map[string]any{"case": cc, "envelope_sha256": fmt.Sprintf("%x", sha256.Sum256(c.Envelope)), "success": res.success}
 		})
-		if c.Source == "fresh" && c.Trusted && c.Identity != "pinned-other" && !res.success {
+		plainReader := c.Presented.Reader == "" || c.Presented.Reader == "bytes" || c.Entry != "notation.VerifyBlob"
+		if c.Source == "fresh" && c.Trusted && c.Identity != "pinned-other" && !res.success && !plainReader {
+			cl = append(cl, "fresh-rejected-with-unusual-reader") // completeness is C07's subject; here it is only counted
+		}
+		if c.Source == "fresh" && c.Trusted && c.Identity != "pinned-other" && !res.success && plainReader {
 			// cross-validation of the harness's builders: a fresh, trusted envelope must verify
 			rt.Fatalf("harness: fresh envelope rejected under %s: %v", c.Level.String(), res.err)
 		}
@@ -635,7 +726,20 @@ func TestC01_Bound(t *testing.T) {
 				rec.Failf(rt, "C01:success-without-outcome:"+c.Entry, c, "no error but a nil outcome")
 				return
 			}
-			if key, msg := oracle(c); key != "" {
+			judged := c.Envelope
+			if c.Entry == "notation.Verify" && len(c.Decoys) > 0 {
+				// several signatures were listed: the outcome says which one verified
+				judged = res.outcome.RawSignature
+				known := bytes.Equal(judged, c.Envelope)
+				for _, d := range c.Decoys {
+					known = known || bytes.Equal(judged, d)
+				}
+				if !known {
+					rec.Failf(rt, "C01:success-for-unlisted-signature", c, "the successful outcome's raw signature is none of the listed envelopes")
+					return
+				}
+			}
+			if key, msg := oracleFor(c, judged); key != "" {
 				rec.Failf(rt, key, c, "%s (source %s %s, level %s)", msg, c.Source, c.Detail, c.Level.String())
 			}
 		}
